@@ -23,19 +23,19 @@ import (
 // C16Case is a C16 run.
 type C16Case struct {
 	Common
-	Mode    string      `json:"mode"` // faults | watch-error | cancel
-	RT      RuntimeOpts `json:"rt"`
-	Hist    HistCfg     `json:"hist"`
-	Probes  []ProbeSpec `json:"probes"`
+	Mode   string      `json:"mode"` // faults | watch-error | cancel
+	RT     RuntimeOpts `json:"rt"`
+	Hist   HistCfg     `json:"hist"`
+	Probes []ProbeSpec `json:"probes"`
 	// Scripts: per probe name, the outcome of its successive Run invocations (plain controllers) / run-hook
 	// invocations (queue controllers): E P (fail at start) RE RP (fail at first reconcile) OKF (one good
 	// reconcile, then fail at the next) LONG (healthy for 2 virtual minutes, then fail); afterwards healthy
-	Scripts map[string][]string `json:"scripts,omitempty"`
-	Writer  []string            `json:"writer,omitempty"` // probes that also write an output each reconcile
-	Tasks   [][]string          `json:"tasks,omitempty"`  // pkg/task tasks: outcome per invocation: E P OK
-	Pre     []WriteOp           `json:"pre"`
-	Phases  [][][]WriteOp       `json:"phases"`
-	CancelMs int                `json:"cancel_ms,omitempty"`
+	Scripts  map[string][]string `json:"scripts,omitempty"`
+	Writer   []string            `json:"writer,omitempty"` // probes that also write an output each reconcile
+	Tasks    [][]string          `json:"tasks,omitempty"`  // pkg/task tasks: outcome per invocation: E P OK
+	Pre      []WriteOp           `json:"pre"`
+	Phases   [][][]WriteOp       `json:"phases"`
+	CancelMs int                 `json:"cancel_ms,omitempty"`
 	// items mode: reconcile outcome script per queue item (ok error requeue requeue-err skip panic)
 	Items       map[string][]string `json:"items,omitempty"`
 	Concurrency int                 `json:"concurrency,omitempty"`
